@@ -292,6 +292,8 @@ type Store struct {
 	Base  ssa.Value // the struct (pointer) whose field is written
 	Val   ssa.Value // value stored (nil for map update / element writes through the field)
 	Kind  string    // "store", "mapupdate", "elem", "complit"
+	// Site: for a write inside a transparent helper that is attributed per call site, that call site
+	Site ssa.CallInstruction
 }
 
 // Stores returns every write to field fv in the module: direct stores,
@@ -316,6 +318,7 @@ func (p *Program) buildStoreIdx() {
 					for _, o := range siteOwners(site) {
 						c := s
 						c.Fn = o
+						c.Site = site
 						if c.Base != nil {
 							c.Base = &CtxValue{c.Base, site}
 						}
@@ -342,22 +345,22 @@ func (p *Program) buildStoreIdx() {
 							if al, ok := a.X.(*ssa.Alloc); ok && (al.Comment == "complit" || strings.HasPrefix(al.Comment, "new")) {
 								kind = "complit"
 							}
-							add(Store{fn, in, fv, a.X, x.Val, kind})
+							add(Store{fn, in, fv, a.X, x.Val, kind, nil})
 						}
 					case *ssa.IndexAddr:
 						if fv, base := fieldOfLoad(a.X); fv != nil {
-							add(Store{fn, in, fv, base, x.Val, "elem"})
+							add(Store{fn, in, fv, base, x.Val, "elem", nil})
 						}
 					}
 				case *ssa.MapUpdate:
 					if fv, base := fieldOfLoad(x.Map); fv != nil {
-						add(Store{fn, in, fv, base, x.Value, "mapupdate"})
+						add(Store{fn, in, fv, base, x.Value, "mapupdate", nil})
 					}
 				case *ssa.Call:
 					// delete(m.f, k)
 					if bi, ok := x.Call.Value.(*ssa.Builtin); ok && bi.Name() == "delete" && len(x.Call.Args) == 2 {
 						if fv, base := fieldOfLoad(x.Call.Args[0]); fv != nil {
-							add(Store{fn, in, fv, base, nil, "mapdelete"})
+							add(Store{fn, in, fv, base, nil, "mapdelete", nil})
 						}
 					}
 				}
